@@ -354,13 +354,25 @@ def calculate_nd_frequencies(
     frequencies = frequencies.astype(dtype)  # Automatically copy
     frequencies = frequencies[ixgrid]
     if weights is not None:
-        # Rows outside all bins are counted exactly; only if there are any,
-        # their weight is the (possibly rounded) difference of the sums.
-        counts, _ = np.histogramdd(data, edges)
-        if counts[ixgrid].sum() == data.shape[0]:
+        # The weight that fell into no cell is summed row by row, not taken as the
+        # difference of two rounded sums (which loses small weights beside large ones).
+        # Rows are located the way np.histogramdd does it (last bin closed).
+        inside = np.ones(data.shape[0], dtype=bool)
+        for i, (axis_edges, axis_mask) in enumerate(zip(edges, masks)):
+            column = data[:, i]
+            index = np.searchsorted(axis_edges, column, side="right")
+            index[column == axis_edges[-1]] -= 1
+            in_range = (index >= 1) & (index < len(axis_edges))
+            is_bin = np.zeros(len(axis_edges) - 1, dtype=bool)
+            is_bin[axis_mask] = True  # (the other intervals are gaps / the catch-all)
+            inside &= in_range
+            inside[in_range] &= is_bin[index[in_range] - 1]
+        if inside.all():
             missing = frequencies.dtype.type(0)
         else:
-            missing = weights.sum() - frequencies.sum()
+            missing = np.result_type(weights.dtype, frequencies.dtype).type(
+                weights[~inside].sum()
+            )
         err_freq, _ = np.histogramdd(data, edges, weights=weights**2)
         errors2 = err_freq[ixgrid].astype(dtype)  # Automatically copy
     else:
